@@ -18,6 +18,7 @@ import (
 	cosmostypes "github.com/cosmos/cosmos-sdk/x/staking/types"
 
 	opchild "github.com/initia-labs/OPinit/x/opchild"
+	opchildkeeper "github.com/initia-labs/OPinit/x/opchild/keeper"
 	opchildtypes "github.com/initia-labs/OPinit/x/opchild/types"
 
 	"verifharness/absx"
@@ -158,6 +159,11 @@ func (ch *Chain) execVal(e M) (Outcome, bool) {
 	ty := absx.Str(e["type"])
 	switch ty {
 	case "RegisterPlan", "BeginBlock", "EndBlock", "InitGenesis":
+	case "Query":
+		if v == nil {
+			return Outcome{}, false
+		}
+		return ch.queryVal(e), true
 	default:
 		return Outcome{}, false
 	}
@@ -320,6 +326,81 @@ func (ch *Chain) planOutcome(p M) bool {
 		}
 	}
 	return !absx.Bool(st["halted"]) && absx.Bool(st["cometOK"]) && absx.Canon(absx.Map(st["params"])["execs"]) == absx.Canon(p["execs"])
+}
+
+// queryVal answers a Query event of ValSet.tla through the real gRPC queriers and the staking-interface readers.
+func (ch *Chain) queryVal(e M) Outcome {
+	f := ch.F
+	ctx := ch.Ctx
+	fail := func(err error) Outcome { return Outcome{OK: false, Err: err.Error()} }
+	valRec := func(val opchildtypes.Validator) M {
+		kn := "?"
+		if ca, err := val.GetConsAddr(); err == nil {
+			kn = ch.keyName(ca)
+		}
+		return M{"op": ch.opName(val.OperatorAddress), "key": kn, "power": val.ConsPower}
+	}
+	switch absx.Str(e["q"]) {
+	case "Validators":
+		r, err := f.Querier.Validators(ctx, &opchildtypes.QueryValidatorsRequest{Pagination: &query.PageRequest{Offset: uint64(absx.Int(e["offset"])), Limit: uint64(absx.Int(e["limit"])),
+			Reverse: absx.Bool(e["reverse"]), CountTotal: true}})
+		if err != nil {
+			return fail(err)
+		}
+		ops := []any{}
+		for _, val := range r.Validators {
+			ops = append(ops, ch.opName(val.OperatorAddress))
+		}
+		return Outcome{OK: true, Resp: M{"ops": ops, "total": int64(r.Pagination.Total)}}
+	case "Validator":
+		r, err := f.Querier.Validator(ctx, &opchildtypes.QueryValidatorRequest{ValidatorAddr: ch.valoper(absx.Str(e["op"]))})
+		if err != nil {
+			return fail(err)
+		}
+		// the staking-interface reader must agree with the gRPC answer
+		if vi := f.Child.Validator(ctx, ch.V.opAddr[absx.Str(e["op"])]); vi == nil || vi.GetOperator() != r.Validator.OperatorAddress {
+			return Outcome{OK: true, Resp: M{"op": "?interface-disagrees"}}
+		}
+		return Outcome{OK: true, Resp: valRec(r.Validator)}
+	case "ValidatorByConsAddr":
+		vi := f.Child.ValidatorByConsAddr(ctx, sdk.ConsAddress(ch.consKey(absx.Str(e["key"])).Address()))
+		if vi == nil {
+			return Outcome{OK: false, Err: "validator not found"}
+		}
+		val, ok := vi.(opchildtypes.Validator)
+		if !ok {
+			return Outcome{OK: true, Resp: M{"op": "?type"}}
+		}
+		return Outcome{OK: true, Resp: valRec(val)}
+	case "LastValidators":
+		vals := []any{}
+		err := f.Child.IterateLastValidators(ctx, func(vi opchildtypes.ValidatorI, power int64) (bool, error) {
+			vals = append(vals, M{"op": ch.opName(vi.GetOperator()), "power": power})
+			return false, nil
+		})
+		if err != nil {
+			return Outcome{OK: false, Err: "validator not found: " + err.Error()}
+		}
+		return Outcome{OK: true, Resp: M{"vals": vals}}
+	case "Params":
+		r, err := f.Querier.Params(ctx, &opchildtypes.QueryParamsRequest{})
+		if err != nil {
+			return fail(err)
+		}
+		return Outcome{OK: true, Resp: ch.paramsName(r.Params)}
+	case "StakingParams":
+		r, err := opchildkeeper.CompatibilityQuerier{Keeper: f.Child}.Params(ctx, &cosmostypes.QueryParamsRequest{})
+		if err != nil {
+			return fail(err)
+		}
+		mv, err1 := f.Child.MaxValidators(ctx)
+		he, err2 := f.Child.HistoricalEntries(ctx)
+		if err1 != nil || err2 != nil || mv != r.Params.MaxValidators || he != r.Params.HistoricalEntries {
+			return Outcome{OK: true, Resp: M{"maxVals": "?interface-disagrees"}}
+		}
+		return Outcome{OK: true, Resp: M{"maxVals": int64(r.Params.MaxValidators), "histEntries": int64(r.Params.HistoricalEntries)}}
+	}
+	panic("unknown query " + absx.Str(e["q"]))
 }
 
 // ProjectVal reads the abstract ValSet state record.
